@@ -17,7 +17,7 @@ ID = "C06"
 LEVEL = "exploration"
 RULE = (
     "Per project 25..60 distinct identifiers, each a triple (class in {current SPDX licence, deprecated licence, SPDX exception, LicenseRef-, unknown, "
-    "wrong case} over the WHOLE bundled list, use in {unused, alone, 'ID+', AND, OR, parentheses, WITH (exceptions), two files} carried by {header, "
+    "wrong case} over the WHOLE bundled list, use in {unused, alone, 'ID+', AND, OR, parentheses, WITH (exceptions), two files, absorbable shapes 'A AND (A OR ID)' / 'A OR (A AND ID)'} carried by {header, "
     ".license, REUSE.toml, dep5}, provision in {absent, ID.txt, ID.md, ID without extension, sub/ID.txt, ID+.txt, ID.txt with ID.txt.license}).  One "
     "`reuse lint --json` per project; missing / unused / bad / deprecated / extension-less collections and summary.used_licenses must equal the "
     "reference inventory exactly.  Non-trivial = triple with use != unused or provision != absent; distinct by (class, use, source, provision, "
@@ -28,7 +28,7 @@ ASSUMPTIONS = [
     "at most one LICENSES/ file per identifier (two providers abort the tool; outside the statement)",
 ]
 
-USES = ["unused", "alone", "plus", "and", "or", "paren", "two-files"]
+USES = ["unused", "alone", "plus", "and", "or", "paren", "two-files", "absorb-and", "absorb-or"]
 PROVS = ["absent", "txt", "md", "noext", "subdir", "plus-txt", "txt+license"]
 SOURCES = ["header", "dotlicense", "global"]
 FILLER = "0BSD"  # partner identifier for compound expressions, always provided
@@ -110,10 +110,13 @@ def build(case):
             if is_exc:
                 base = f"{FILLER} WITH {ident}"
                 expr = {"alone": base, "plus": f"{FILLER}+ WITH {ident}", "and": f"{base} AND MIT", "or": f"MIT OR {base}",
-                        "paren": f"({base}) AND MIT", "two-files": base}[u]
+                        "paren": f"({base}) AND MIT", "two-files": base,
+                        # boolean absorption would make the identifier disappear; it is used all the same
+                        "absorb-and": f"MIT AND (MIT OR {base})", "absorb-or": f"MIT OR (MIT AND {base})"}[u]
             else:
                 expr = {"alone": ident, "plus": ident + "+", "and": f"{ident} AND {FILLER}", "or": f"{FILLER} OR {ident}",
-                        "paren": f"({ident} OR {FILLER}) AND MIT", "two-files": ident}[u]
+                        "paren": f"({ident} OR {FILLER}) AND MIT", "two-files": ident,
+                        "absorb-and": f"{FILLER} AND ({FILLER} OR {ident})", "absorb-or": f"{FILLER} OR ({FILLER} AND {ident})"}[u]
             add_file(f"src/f{k}.py", expr, t["src"])
             if u == "two-files":
                 add_file(f"src/g{k}.py", expr + (" AND MIT" if not is_exc else ""), "header")
